@@ -241,12 +241,19 @@ def slice_statements(ct, pat_a, pat_b, name):
             elif t.text == ";" and d == 0:
                 at_start = True
     def find(pat):
-        after = False
+        after = before = False
         if pat and pat[0] == ">":      # `>pattern`: the statement that follows the one starting with pattern
             after, pat = True, pat[1:]
+        elif pat and pat[0] == "<":    # `<pattern`: the statement that precedes the one starting with pattern
+            before, pat = True, pat[1:]
         hits = [s0 for s0 in starts if [x.text for x in ct[s0:s0 + len(pat)]] == pat]
         if len(hits) != 1:
             raise ExtractError(f"STMTS anchor {' '.join(pat)!r} matched {len(hits)} statements in {name}")
+        if before:
+            earlier = [s0 for s0 in starts if s0 < hits[0]]
+            if not earlier:
+                raise ExtractError(f"STMTS anchor {' '.join(pat)!r}: no preceding statement in {name}")
+            return earlier[-1]
         if after:
             later = [s0 for s0 in starts if s0 > hits[0]]
             if not later:
